@@ -6,7 +6,9 @@
   The learning phase (`K.learning_phase()`, the condition of every `smart_cond`) is `phase`.
 
   Mirrors, function by function (names in the doc comments):
-    stochastic_round, stochastic_round_po2, _round_through, _clip_power_of_two,
+    stochastic_round, stochastic_round_po2, _round_through, _clip_power_of_two (all of its
+    options: max_value, quadratic_approximation, use_stochastic_rounding, log2_rounding, in the
+    branch order of the code — "floor" wins over the stochastic flag),
     quantized_linear.__call__ / _scale_clip_and_round / get_clip_bounds,
     quantized_bits.__call__ (alpha None or a number), quantized_relu.__call__ (use_sigmoid=0,
     relu_upper_bound=None), quantized_tanh, quantized_sigmoid, quantized_po2, quantized_relu_po2,
@@ -134,6 +136,27 @@ def quantizedBits (c : BitsCfg) (phase : Bool) (x u : Rat) : Rat :=
       if c.keepNegative then s else (s + 1) / 2
   c.alpha * xq
 
+/-- `quantized_bits.__call__` with a STRING alpha ("auto" / "auto_po2"): that branch computes
+    `v = floor(|x/m_i|/scale + 0.5)`, `z = sign(x)·min(v, levels/2)` and RETURNS
+    `scale·m · m_i·z/m` before the `_round_through` call is reached ("we will not use z right now
+    because of stochastic_rounding — this is still under test"): `use_stochastic_rounding`, the
+    learning phase and the draw are never read.  `S` = the value the call leaves in `self.scale`
+    for the element's channel (`scale·m`; data-dependent max / least-squares reduction: oracle
+    argument); `symmetric` is forced to True by `__init__`, so `levels = (2^(bits-1) - 1)·2`. -/
+def quantizedBitsAuto (c : BitsCfg) (S x : Rat) : Rat :=
+  let m := pow2 (c.bits - b2z c.keepNegative)
+  let mi := pow2 c.integer
+  let levels : Rat := (pow2 (c.bits - 1) - 1) * 2
+  let sc := S / m
+  let xs := x / mi
+  let v := fl (absR xs / sc + 1 / 2)
+  let z := sgn xs * (if v < levels / 2 then v else levels / 2)
+  S * (mi * z / m)
+
+/-- `quantized_bits.__call__` for every kind of alpha: `auto = true` is the string-alpha branch -/
+def quantizedBitsAny (auto : Bool) (c : BitsCfg) (phase : Bool) (S x u : Rat) : Rat :=
+  if auto then quantizedBitsAuto c S x else quantizedBits c phase x u
+
 /-- `quantized_linear.use_sign_function` -/
 def linSign (c : BitsCfg) : Bool := c.bits == 1 && c.keepNegative
 
@@ -195,6 +218,10 @@ structure Po2Cfg where
   maxExp : Int
   maxValue : Option Rat
   stoch : Bool
+  /-- `log2_rounding == "floor"` -/
+  floorMode : Bool := false
+  /-- `quadratic_approximation` -/
+  quad : Bool := false
   deriving Repr
 
 /-- `_need_exponent_sign_bit_check` -/
@@ -206,16 +233,23 @@ def needExpSignBit (maxValue : Option Rat) : Int :=
 /-- `2**k` for the Python int exponent (negative `k` gives a float `2**k`; stays exact here) -/
 def p2i (k : Int) : Int := if 0 ≤ k then ((2 ^ k.toNat : Nat) : Int) else 0
 
-/-- `quantized_po2.__init__` exponent range via `_get_min_max_exponents`
-    (`quadratic_approximation=False`); valid for `effect_bits ≥ 0`. -/
-def po2CfgOf (bits : Int) (maxValue : Option Rat) (stoch : Bool) : Po2Cfg :=
+/-- `max_exp = 2 * (max_exp // 2)` under `quadratic_approximation` -/
+def quadMaxExp (quad : Bool) (maxExp : Int) : Int := if quad then 2 * (maxExp / 2) else maxExp
+
+/-- `quantized_po2.__init__` exponent range via `_get_min_max_exponents`; valid for
+    `effect_bits ≥ 0`. -/
+def po2CfgOf (bits : Int) (maxValue : Option Rat) (stoch : Bool)
+    (floorMode : Bool := false) (quad : Bool := false) : Po2Cfg :=
   let eff := (bits - 1) - needExpSignBit maxValue
-  { minExp := - p2i eff, maxExp := p2i eff - 1, maxValue := maxValue, stoch := stoch }
+  { minExp := - p2i eff, maxExp := quadMaxExp quad (p2i eff - 1), maxValue := maxValue, stoch := stoch,
+    floorMode := floorMode, quad := quad }
 
 /-- `quantized_relu_po2.__init__` exponent range (`bits - need_exponent_sign_bit`). -/
-def reluPo2CfgOf (bits : Int) (maxValue : Option Rat) (stoch : Bool) : Po2Cfg :=
+def reluPo2CfgOf (bits : Int) (maxValue : Option Rat) (stoch : Bool)
+    (floorMode : Bool := false) (quad : Bool := false) : Po2Cfg :=
   let eff := bits - needExpSignBit maxValue
-  { minExp := - p2i eff, maxExp := p2i eff - 1, maxValue := maxValue, stoch := stoch }
+  { minExp := - p2i eff, maxExp := quadMaxExp quad (p2i eff - 1), maxValue := maxValue, stoch := stoch,
+    floorMode := floorMode, quad := quad }
 
 /-- `x_filter` of `_clip_power_of_two` -/
 def po2Filter (c : Po2Cfg) (xabs : Rat) : Rat :=
@@ -224,23 +258,44 @@ def po2Filter (c : Po2Cfg) (xabs : Rat) : Rat :=
   | some mv => if mv ≤ xf then mv else xf
   | none => xf
 
-/-- `_clip_power_of_two(x_abs, min_exp, max_exp, max_value, False, stoch, "rnd")`: the exponent.
-    Deterministic path: `round(log2 x_filter)` (exact; float error only matters in the
-    `√2·2^k` band, DESIGN §3.2 device 3). -/
-def clipPowerOfTwo (c : Po2Cfg) (phase : Bool) (xabs u : Rat) : Int :=
-  let xf := po2Filter c xabs
-  let xlog2 :=
-    if c.stoch then (if phase then stochasticRoundPo2 xf u else roundLog2 xf) else roundLog2 xf
-  if xabs < epsK then c.minExp else clipI xlog2 c.minExp c.maxExp
+/-- `x_input` of `power_of_two_clip`: `x_filter`, or `tf.sqrt(x_filter)` under
+    `quadratic_approximation` — the float square root is the oracle argument `s`
+    (DESIGN §3.2 device 2; the driver checks `s² ≈ x_filter` on every case). -/
+def po2Input (c : Po2Cfg) (xabs s : Rat) : Rat := if c.quad then s else po2Filter c xabs
+
+/-- `q_factor` -/
+def po2Qf (c : Po2Cfg) : Int := if c.quad then 2 else 1
+
+/-- `log2_rounding="floor"`: `x_rnd = round(log2 y)` (`e0`);
+    `x_floor = tf.where(pow(2.0, x_rnd) > y, x_rnd - 1, x_rnd)`. -/
+def floorFromRound (y : Rat) (e0 : Int) : Int := if y < pow2 e0 then e0 - 1 else e0
+
+/-- the `if / elif / else` of `power_of_two_clip`, in the order the code tests it:
+    `log2_rounding == "floor"` FIRST (the stochastic flag is not looked at in that branch),
+    then `use_stochastic_rounding` (a `smart_cond` on the learning phase), else `_round_through`
+    of the logarithm (no stochastic flag passed: `tf.round`).  Deterministic paths use the exact
+    `roundLog2` (float error only matters in the `√2·2^k` band, device 3). -/
+def po2Log2 (c : Po2Cfg) (phase : Bool) (y u : Rat) : Int :=
+  if c.floorMode then floorFromRound y (roundLog2 y)
+  else if c.stoch then (if phase then stochasticRoundPo2 y u else roundLog2 y)
+  else roundLog2 y
+
+/-- `_clip_power_of_two(x_abs, min_exp, max_exp, max_value, quad, stoch, log2_rounding)`: the
+    exponent.  `s` = `tf.sqrt(x_filter)` (used only under `quadratic_approximation`). -/
+def clipPowerOfTwo (c : Po2Cfg) (phase : Bool) (xabs s u : Rat) : Int :=
+  if xabs < epsK then c.minExp
+  else po2Qf c * clipI (po2Log2 c phase (po2Input c xabs s) u) c.minExp c.maxExp
 
 /-- `quantized_po2.__call__` -/
-def quantizedPo2 (c : Po2Cfg) (phase : Bool) (x u : Rat) : Rat :=
-  sgn1 x * pow2 (clipPowerOfTwo c phase (absR x) u)
+def quantizedPo2 (c : Po2Cfg) (phase : Bool) (x s u : Rat) : Rat :=
+  sgn1 x * pow2 (clipPowerOfTwo c phase (absR x) s u)
 
-/-- `quantized_relu_po2.__call__`: two `_clip_power_of_two` calls, two draws. -/
-def quantizedReluPo2 (c : Po2Cfg) (negSlope : Rat) (phase : Bool) (x u1 u2 : Rat) : Rat :=
-  let xPos := clipPowerOfTwo c phase (relu x 0) u1
-  let xNeg := clipPowerOfTwo c phase (relu (-x) 0 * negSlope) u2
+/-- `quantized_relu_po2.__call__`: two `_clip_power_of_two` calls, two draws.  Per element only
+    one side has a magnitude ≥ eps (the other is `relu(∓x) = 0 < eps ↦ min_exp`), so one square-root
+    oracle `s` (of the selected side) serves both calls. -/
+def quantizedReluPo2 (c : Po2Cfg) (negSlope : Rat) (phase : Bool) (x s u1 u2 : Rat) : Rat :=
+  let xPos := clipPowerOfTwo c phase (relu x 0) s u1
+  let xNeg := clipPowerOfTwo c phase (relu (-x) 0 * negSlope) s u2
   if 0 ≤ x ∨ negSlope = 0 then pow2 xPos else - pow2 xNeg
 
 /-! ## binary / ternary -/
@@ -335,23 +390,27 @@ def sigmoidLat (bits : Int) (symmetric : Bool) : Lat :=
   let m := pow2 bits
   { post := 1 / m, off := 0, lo := b2r symmetric, hi := m - 1 }
 
-/-! power-of-two reference notions: `l` with `2^l ≤ x_filter < 2^(l+1)` (the driver re-checks
-    this bracketing on every case, so `floorLog2Rat` is not trusted for it). -/
-def po2Floor (c : Po2Cfg) (xabs : Rat) : Int := floorLog2Rat (po2Filter c xabs)
+/-! power-of-two reference notions.  The codes are `2^(qf·k)`, `min_exp ≤ k ≤ max_exp`
+    (`qf = 2` under quadratic approximation); `l` with `2^(qf·l) ≤ x_filter < 2^(qf·(l+1))`
+    (the driver re-checks this bracketing on every case, so `floorLog2Rat` is not trusted). -/
+def po2Floor (c : Po2Cfg) (xabs : Rat) : Int :=
+  let l := floorLog2Rat (po2Filter c xabs)
+  if c.quad then l / 2 else l
 def po2IsPow (c : Po2Cfg) (xabs : Rat) : Bool :=
-  decide (po2Filter c xabs = pow2 (po2Floor c xabs))
+  decide (po2Filter c xabs = pow2 (po2Qf c * po2Floor c xabs))
 /-- exponent of the code just below / above the clipped input -/
 def po2BelowExp (c : Po2Cfg) (xabs : Rat) : Int :=
-  if xabs < epsK then c.minExp else clipI (po2Floor c xabs) c.minExp c.maxExp
+  if xabs < epsK then c.minExp else po2Qf c * clipI (po2Floor c xabs) c.minExp c.maxExp
 def po2AboveExp (c : Po2Cfg) (xabs : Rat) : Int :=
   if xabs < epsK then c.minExp
-  else if po2IsPow c xabs then clipI (po2Floor c xabs) c.minExp c.maxExp
-  else clipI (po2Floor c xabs + 1) c.minExp c.maxExp
-/-- probability of the upper exponent that unbiasedness requires: `(y - 2^l)/(2^(l+1) - 2^l)` -/
+  else if po2IsPow c xabs then po2Qf c * clipI (po2Floor c xabs) c.minExp c.maxExp
+  else po2Qf c * clipI (po2Floor c xabs + 1) c.minExp c.maxExp
+/-- probability of the upper code that unbiasedness requires: `(y - lo)/(hi - lo)` for the
+    bracketing codes `lo = 2^(qf·l)`, `hi = 2^(qf·(l+1))` -/
 def po2Frac (c : Po2Cfg) (xabs : Rat) : Rat :=
   let y := po2Filter c xabs
   let l := po2Floor c xabs
-  (y - pow2 l) / (pow2 (l + 1) - pow2 l)
+  (y - pow2 (po2Qf c * l)) / (pow2 (po2Qf c * (l + 1)) - pow2 (po2Qf c * l))
 /-- hypothesis on the log oracle under which the bracketing of `stochastic_round_po2` is right -/
 def po2H (y : Rat) (e0 : Int) : Bool := decide (pow2 (e0 - 1) < y) && decide (y < pow2 (e0 + 1))
 
